@@ -12,6 +12,35 @@ import (
 	"github.com/apache/skywalking-banyandb/api/common"
 )
 
+// VerifRow is one data point / element (unique series/timestamp per row by construction of the driver).
+type VerifRow struct {
+	SID uint64
+	TS  int64
+	Val int64
+}
+
+// VerifPartInfo describes one partWrapper the driver has seen.
+type VerifPartInfo struct {
+	ID        uint64
+	Mem       bool
+	Ref       int32
+	Removable bool
+	DirExists bool
+}
+
+// VerifManifest describes a table directory as the loader sees it, without opening it.
+type VerifManifest struct {
+	Complete  map[uint64]bool
+	Err       string
+	Epochs    []uint64
+	Listed    []uint64 // part ids named by the newest manifest
+	Dirs      []uint64 // part directories present
+	BadDirs   []string // directories whose name is not a part id
+	OtherFile []string
+	IndexDirs []uint64 // trace: part directories of the secondary index
+	HasIndex  bool
+}
+
 // VerifSeg is a handle on one real segment object (kept by the driver even after the controller unlisted it).
 type VerifSeg[T TSTable, O any] struct {
 	s *segment[T, O]
